@@ -24,6 +24,7 @@ let rack_of = function "high" -> RHigh | "mid" -> RMid | "low" -> RLow | s -> fa
 (* universes under construction, by source id *)
 type ub = { mutable attrs : (z * attr_meta) list; mutable effects : (z * effect) list;
             mutable types : (z * itype) list; mutable buffs : (z * buff_template list) list }
+let tabil : (int * int, int list) Hashtbl.t = Hashtbl.create 8
 let ubs : (int, ub) Hashtbl.t = Hashtbl.create 4
 let ub src = match Hashtbl.find_opt ubs src with
   | Some u -> u
@@ -76,8 +77,11 @@ let item_s x i =
       (match it.i_loaded with None -> 0 | Some _ -> 1)
       (ints (List.map int_of_z it.i_running)) (on_s it.i_target) (on_s it.i_charge)
       (String.concat "," (List.map (fun (e, a) ->
-           Printf.sprintf "%d>%d" (int_of_z e)
-             (match get_item w a with Some x -> int_of_z x.i_tid | None -> -1))
+           (match get_item w a with
+            | Some x -> Printf.sprintf "%d>%d:%d:%s" (int_of_z e) (int_of_z x.i_tid)
+                          (match x.i_loaded with None -> 0 | Some _ -> 1)
+                          (String.concat "+" (List.map string_of_int (List.sort compare (List.map int_of_z x.i_running))))
+            | None -> Printf.sprintf "%d>?" (int_of_z e)))
            (List.sort compare it.i_autos)))
       (ints (List.map (fun (a, _) -> int_of_z a) (get_icache x.s_d (ni i)).ic_vals))
 
@@ -144,6 +148,15 @@ let kind_of = function
   | MFleetFitAdded -> "FleetFitAdded" | MFleetFitRemoved -> "FleetFitRemoved"
   | MDefaultDmgChanged -> "DefaultIncomingDmgChanged" | MRahDmgChanged -> "RahIncomingDmgChanged"
 let spec_memo = ref []
+let item_abilities i =
+  match get_item (!world).s_w (ni i) with
+  | None -> []
+  | Some it -> (match it.i_loaded with
+      | None -> []
+      | Some src -> (try Hashtbl.find tabil (int_of_nat src, int_of_z it.i_tid) with Not_found -> []))
+(* a < b on rationals: sign of a - b *)
+let qminus_lt a b =
+  let d = qplus a (qopp b) in (match d.qnum with Zneg _ -> true | _ -> false)
 let do_step o =
   let (w, r) = step !world o in
   world := w;
@@ -156,8 +169,8 @@ let do_step o =
 
 let handle toks =
   match toks with
-  | "pen" :: qs -> pen := List.map q_of_string qs; world := init_sys !pen; spec_memo := []; Hashtbl.reset ubs; "ok"
-  | ["reset"] -> world := init_sys !pen; spec_memo := []; Hashtbl.reset ubs; "ok"
+  | "pen" :: qs -> pen := List.map q_of_string qs; world := init_sys !pen; spec_memo := []; Hashtbl.reset ubs; Hashtbl.reset tabil; "ok"
+  | ["reset"] -> world := init_sys !pen; spec_memo := []; Hashtbl.reset ubs; Hashtbl.reset tabil; "ok"
   | ["u_attr"; src; aid; d; hig; st; mx] ->
     let u = ub (int_of_string src) in
     u.attrs <- u.attrs @ [(zi aid, { am_default = oq d; am_hig = b hig; am_stackable = b st; am_max = oz mx })]; "ok"
@@ -189,6 +202,9 @@ let handle toks =
     let k = zi bid in
     (if List.exists (fun (k', _) -> zeq k k') u.buffs
      then u.buffs <- upd k (fun l -> l @ [t]) u.buffs else u.buffs <- u.buffs @ [(k, [t])]); "ok"
+  | ["u_tability"; src; tid; aid] ->
+    let k = (int_of_string src, int_of_string tid) in
+    Hashtbl.replace tabil k ((try Hashtbl.find tabil k with Not_found -> []) @ [int_of_string aid]); "ok"
   | ["commit"; src] ->
     let u = ub (int_of_string src) in
     do_step (ODefSource (ni src, { u_attrs = u.attrs; u_effects = u.effects; u_types = u.types; u_buffs = u.buffs }))
@@ -231,6 +247,49 @@ let handle toks =
     (match v with
      | Some v -> "val " ^ string_of_q v
      | None -> "none")
+  | ["sideeffects"; i] ->
+    let (d, r) = side_effects (!world).s_w (!world).s_d (ni i) in
+    world := { !world with s_d = d };
+    (match r with
+     | None -> "exn Internal:KeyAbsent"
+     | Some l -> String.trim ("sideeffects " ^ String.concat " "
+                   (List.map (fun ((e, c), s) -> Printf.sprintf "%d:%s:%d" (int_of_z e) (string_of_q c) (if s then 1 else 0))
+                      (List.sort (fun ((a, _), _) ((b, _), _) -> compare (int_of_z a) (int_of_z b)) l))))
+  | ["setside"; i; e; st] ->
+    let (d, r) = side_effects (!world).s_w (!world).s_d (ni i) in
+    world := { !world with s_d = d };
+    (match r with
+     | None -> "exn Internal:KeyAbsent"
+     | Some l ->
+       if not (List.exists (fun ((e', _), _) -> int_of_z e' = int_of_string e) l) then "exn NoSuchSideEffectError"
+       else do_step (OMode (ni i, zi e, side_effect_mode (b st))))
+  | ["abilities"; i] ->
+    let abil = item_abilities i in
+    (match abilities (!world).s_w (List.map z_of_int abil) (ni i) with
+     | None -> "exn Internal:KeyAbsent"
+     | Some l -> String.trim ("abilities " ^ String.concat " "
+                   (List.map (fun (a, s) -> Printf.sprintf "%d:%d" (int_of_z a) (if s then 1 else 0))
+                      (List.sort (fun (a, _) (b, _) -> compare (int_of_z a) (int_of_z b)) l))))
+  | ["setability"; i; a; st] ->
+    let abil = item_abilities i in
+    if not (List.mem (int_of_string a) abil) then "exn NoSuchAbilityError"
+    else (match ability_set_mode (!world).s_w (ni i) (zi a) (b st) with
+        | None -> "exn Internal:KeyAbsent"
+        | Some (e, m) -> do_step (OMode (ni i, e, m)))
+  | "randomize" :: i :: rs ->
+    let (d, r) = side_effects (!world).s_w (!world).s_d (ni i) in
+    world := { !world with s_d = d };
+    (match r with
+     | None -> "exn Internal:KeyAbsent"
+     | Some l ->
+       (* one random number per side effect, in type-effect order *)
+       let rec go l rs acc = match l, rs with
+         | ((e, c), _) :: l', r :: rs' ->
+           let lt = (let rq = q_of_string r in qminus_lt rq c) in
+           go l' rs' (acc @ [(e, side_effect_mode lt)])
+         | _, _ -> acc in
+       let modes = go l rs [] in
+       List.iter (fun (e, m) -> ignore (do_step (OMode (ni i, e, m)))) modes; "ok")
   | ["item"; i] -> item_s !world i
   | ["fitdump"; f] -> fit_s !world f
   | ["regs"; s] -> regs_s !world s
